@@ -245,6 +245,80 @@ def case(ctx, idx, res):
     res.evals -= 1
 
 
+def xpath_case(ctx, idx, res):
+    """the same values through the XPath engine: string($n) (as object, into a string, as character events), number(string($n)), round / floor /
+    ceiling($n), number($s), number('literal') and the numeral as a Number token of the expression; this is the route stylesheets take, with
+    the caches of XNumber / XString and the lexer in the path"""
+    import re
+    import xpcommon as C
+    r = rng_for(ctx.seed, 'c18x', idx)
+    drv = ctx.drv(FLAVOUR)
+    h = drv.call(cmd='xdoc', xml='<d/>', xerces=0)['doc'].decode()
+    sigs = set()
+    res.evals = 0
+
+    def ev(expr, variables, entry='all'):
+        res.evals += 1
+        return C.call_xpath(drv, h, expr, ctx='/0', variables=variables, entry=entry)
+    try:
+        if idx % 2 == 0:
+            for _ in range(40):
+                cls, x = gen_double(r)
+                v = {'n': x}
+                rp = ev('string($n)', v)
+                for k in ('g_str', 'str', 'chars', 'g_chars', 'g_str_append'):
+                    if k in rp:
+                        why = refnum.check_string_of(x, rp[k])
+                        if why:
+                            res.viol('xpath|string|%s|%s' % (cls, why.split(':')[0]), 'string($n) for $n = %r through %s gives %r: %s' % (x, k, rp[k][:120], why), {'bits': hexbits(x), 'entry': k})
+                            break
+                res.count('xpath_string_of')
+                if x == x and abs(x) != math.inf:
+                    rp = ev('number(string($n))', v, 'generic')
+                    got = from_bits(int(rp['g_num'], 16)) if 'g_num' in rp else None
+                    if got is None or not (got == x):
+                        res.viol('xpath|roundtrip|%s' % cls, 'number(string($n)) for $n = %r gives %r' % (x, got), {'bits': hexbits(x), 'reply': rp})
+                    sigs.add(bits(x))
+                for fn, ref in (('round', refnum.xp_round), ('floor', refnum.xp_floor), ('ceiling', refnum.xp_ceil)):
+                    rp = ev('%s($n)' % fn, v, 'all')
+                    exp = ref(x)
+                    for k in ('g_num', 'num'):
+                        if k in rp:
+                            got = from_bits(int(rp[k], 16))
+                            if not same(exp, got):
+                                res.viol('xpath|%s|%s|%s' % (fn, cls, 'zero-sign' if exp == got else 'value'), '%s($n) for $n = %r gives %r through %s, XPath 4.4 prescribes %r' % (fn, x, got, k, exp), {'bits': hexbits(x)})
+                                break
+                    res.count('xpath_' + fn)
+        else:
+            for _ in range(60):
+                cls, sv = gen_string(r)
+                if any(ord(c) < 32 and c not in '\t\n\r' for c in sv) or any(0xd800 <= ord(c) <= 0xdfff for c in sv):
+                    continue
+                exp = refnum.number_of(sv)
+                forms = [('number($s)', {'s': sv})]
+                if "'" not in sv:
+                    forms.append(("number('%s')" % sv, {}))
+                if re.match(r'^([0-9]+(\.[0-9]*)?|\.[0-9]+)$', sv):
+                    forms.append((sv, {}))                      # a Number token of the expression itself
+                    forms.append(('- ' + sv, {}))
+                for expr, v in forms:
+                    rp = ev(expr, v, 'generic')
+                    if 'g_num' not in rp:
+                        res.viol('xpath|number|no-value', 'the expression %r (s = %r) gives no number: %r' % (expr[:80], sv[:80], dict((k, w[:80]) for k, w in rp.items())), {'expr': expr, 'string': sv})
+                        continue
+                    got = from_bits(int(rp['g_num'], 16))
+                    want = -exp if expr.startswith('- ') else exp
+                    if not ((want != want and got != got) or want == got):
+                        res.viol('xpath|number|%s|%s' % (cls, 'valid' if exp == exp else 'invalid'), '%s with s = %r gives %r, expected %r' % (expr[:60], sv[:100], got, want), {'expr': expr, 'string': sv})
+                sigs.add(sv)
+                res.count('xpath_number_of')
+    finally:
+        if drv.alive():
+            drv.call(cmd='xdocdel', doc=h)
+    res.sigs = sigs
+    res.sample = {'kind': 'xpath', 'case': idx}
+
+
 def main():
     global FLAVOUR
     chk = Check('C18')
@@ -257,12 +331,13 @@ def main():
     n = 750 if chk.tier == 'quick' else 60000          # batches of 400 values
     chk.ensure('plain', 'xvdrv')
     chk.run_cases('c18', 'case', range(n))
+    chk.run_cases('c18', 'xpath_case', range(max(200, n // 4)))
     if chk.tier == 'thorough' or os.environ.get('VERIF_C18_ASAN'):
         chk.ensure('asan', 'xvdrv')
         FLAVOUR = 'asan'
         os.environ['VERIF_C18_FLAVOUR'] = 'asan'
         chk.run_cases('c18', 'case_asan', range(n, n + (n // 10)))
-    chk.finish(min_nontrivial=1000)
+    chk.finish(min_nontrivial=1000, required_stats=('xpath_string_of', 'xpath_number_of', 'xpath_round'))
 
 
 def case_asan(ctx, idx, res):
